@@ -151,40 +151,70 @@ def run_batch_real(params: Dict[str, Any]) -> Dict[str, Any]:
             widx[threading.get_ident()] = k + 1
             worker_loop(k, transport, SequentialSemantivaExecutor(), stop, lg, 0.005)
 
-        wts = [threading.Thread(target=wl, args=(k,), daemon=True) for k in range(nworkers)]
-        mt.start()
-        for t in wts:
-            t.start()
+        life = params.get("life")
+        stop_a = threading.Event()
+
+        def wl_a(k):      # first generation of workers (recycle mode): told to stop in the middle of the batch
+            widx[threading.get_ident()] = k + 1
+            worker_loop(k, transport, SequentialSemantivaExecutor(), stop_a, lg, 0.005)
+
+        wts = [threading.Thread(target=wl_a if life == "recycle" else wl, args=(k,), daemon=True) for k in range(nworkers)]
+        wts_b = [threading.Thread(target=wl, args=(k + nworkers,), daemon=True) for k in range(nworkers)] if life == "recycle" else []
+        if life != "late-master":
+            mt.start()
+            for t in wts:
+                t.start()
         futs = []
         ids: List[Optional[str]] = []
-        for i, jb in enumerate(jobs):
-            if rng.random() < 0.5:
-                time.sleep(rng.random() * 0.004)
-            before = set(master.pending_futures)
-            log.append((next(seq), "enq", i + 1, None, None))
-            if params.get("perturb") == "focus-enqueue":
-                # the caller is held at every line of enqueue() for longer than a job's whole round trip
-                # (publish -> worker -> status -> master): whatever enqueue does must be in place before the job can finish
-                def _enq_tracer(frame, event, arg):
-                    if frame.f_code.co_name == "enqueue" and frame.f_code.co_filename.endswith("queue_orchestrator.py"):
-                        if event == "line":
-                            time.sleep(0.35)
-                        return _enq_tracer
-                    return None
-                sys.settrace(_enq_tracer)
-            try:
-                fut = master.enqueue(jb["nodes"], data=_payload(jb["value"]),
-                                     context=ContextType(dict(jb["ctx"])), return_future=True)
-            finally:
-                if params.get("perturb") == "focus-enqueue":
-                    sys.settrace(None)
-            new = set(master.pending_futures) - before
-            jid = next((k for k, v in list(_RecDict.registered) if v is fut), None) \
-                or next((k for k, v in list(master.pending_futures.items()) if v is fut), None) or (next(iter(new)) if new else None)
-            ids.append(jid)
-            fut.add_done_callback(lambda f, i=i: log.append((next(seq), "resolve", i + 1, None,
-                                                              "error" if f.exception() is not None else "result")))
-            futs.append(fut)
+
+        def enqueue_all():
+          for i, jb in enumerate(jobs):
+              if life == "recycle" and i == max(1, n // 2):
+                  # "stop one worker, keep the queue running": the first generation is told to stop while jobs are
+                  # still on the transport, a second generation joins the same transport and finishes the backlog
+                  stop_a.set()
+                  for t in wts_b:
+                      t.start()
+              if rng.random() < 0.5:
+                  time.sleep(rng.random() * 0.004)
+              before = set(master.pending_futures)
+              log.append((next(seq), "enq", i + 1, None, None))
+              if params.get("perturb") == "focus-enqueue":
+                  # the caller is held at every line of enqueue() for longer than a job's whole round trip
+                  # (publish -> worker -> status -> master): whatever enqueue does must be in place before the job can finish
+                  def _enq_tracer(frame, event, arg):
+                      if frame.f_code.co_name == "enqueue" and frame.f_code.co_filename.endswith("queue_orchestrator.py"):
+                          if event == "line":
+                              time.sleep(0.35)
+                          return _enq_tracer
+                      return None
+                  sys.settrace(_enq_tracer)
+              try:
+                  fut = master.enqueue(jb["nodes"], data=_payload(jb["value"]),
+                                       context=ContextType(dict(jb["ctx"])), return_future=True)
+              finally:
+                  if params.get("perturb") == "focus-enqueue":
+                      sys.settrace(None)
+              new = set(master.pending_futures) - before
+              jid = next((k for k, v in list(_RecDict.registered) if v is fut), None) \
+                  or next((k for k, v in list(master.pending_futures.items()) if v is fut), None) or (next(iter(new)) if new else None)
+              ids.append(jid)
+              fut.add_done_callback(lambda f, i=i: log.append((next(seq), "resolve", i + 1, None,
+                                                                "error" if f.exception() is not None else "result")))
+              futs.append(fut)
+        if life == "late-master":
+            # the whole batch is submitted BEFORE the master loop and the workers exist (the plain script: enqueue
+            # everything, start the machinery, wait): enqueue() must hand out every Future without anyone consuming
+            et = threading.Thread(target=enqueue_all, daemon=True)
+            et.start()
+            et.join(timeout=20.0)
+            out["enqueue_stuck"] = et.is_alive()
+            mt.start()
+            for t in wts:
+                t.start()
+            et.join(timeout=60.0)
+        else:
+            enqueue_all()
         deadline = time.time() + params.get("timeout", 30.0)
         results = []
         for i, fut in enumerate(futs):
@@ -198,8 +228,9 @@ def run_batch_real(params: Dict[str, Any]) -> Dict[str, Any]:
         stop.set()
         master.running = False
         mt.join(timeout=2.0)
-        for t in wts:
-            t.join(timeout=2.0)
+        for t in wts + wts_b:
+            if t.ident is not None:
+                t.join(timeout=2.0)
         # direct execution of every job (code vs code)
         direct = []
         for jb in jobs:
@@ -224,6 +255,9 @@ def run_batch_real(params: Dict[str, Any]) -> Dict[str, Any]:
 
 
 def value_check(h: Dict[str, Any]) -> Optional[str]:
+    if h.get("enqueue_stuck"):
+        return (f"batch of {h['njobs']} jobs submitted before the master loop was started: enqueue() had not returned after 20 s "
+                f"({len(h['results'])} Futures handed out) -- the caller is stuck and the Futures never complete")
     for i, (got, want) in enumerate(zip(h["results"], h["direct"])):
         jid = h["ids"][i]
         if got[0] == "timeout":
@@ -285,14 +319,15 @@ def check(tier: str) -> int:
                 "execution; non-trivial = batches containing a failing job or >= 2 workers")
     run.assumptions = ["liveness is observed as 'every Future done within the timeout' (30 s per batch)",
                        "message events are logged inside deque.append/popleft (under the channel lock), Future completion by done-callback"]
-    for cfg, expect in (("JobQueue.j3w2.check", None), ("JobQueue.j4w3.check", None), ("JobQueue.j3w2.noreport", "EveryFutureCompletes")):
+    for cfg, expect in (("JobQueue.j3w2.check", None), ("JobQueue.j4w3.check", None), ("JobQueue.j3w2.noreport", "EveryFutureCompletes"),
+                        ("JobQueue.j3w2.dropjob", "Conservation")):
         res = tlc.run_tlc("MC_JobQueue", cfg, coverage=True, timeout=1800, expect_violation=bool(expect))
         run.add_tlc(res, count_states=expect is None)
         if expect is None:
             run.require_tlc_ok(res, cfg)
         elif res.violated != expect:
             raise core.MachineryError(f"sensitivity: {cfg} should violate {expect}")
-    run.require_actions(["Enqueue", "MasterPublish", "WorkerTake", "WorkerRunOk", "WorkerRunFail", "MasterResolve"])
+    run.require_actions(["Enqueue", "MasterPublish", "WorkerTake", "WorkerRunOk", "WorkerRunFail", "MasterResolve", "WorkerExit"])
     rng = random.Random(core.seed() + 15)
     plist = []
     nb = 64 if tier == "quick" else 600
@@ -303,8 +338,17 @@ def check(tier: str) -> int:
             n = 2
         # a failing job at every position over the batches of one size, plus batches without failures
         fail_at = [] if b % 4 == 3 else sorted({b % n} | ({rng.randrange(n)} if rng.random() < 0.3 else set()))
-        plist.append({"seed": core.seed() * 9973 + b, "njobs": n, "nworkers": rng.randint(1, 4),
-                      "switch": 10 ** rng.uniform(-6, -2.3), "fail_at": fail_at, "timeout": 90.0,
+        life = None
+        if b % 16 == 9 or b == 36:
+            life = "late-master"            # incl. one 40-job batch: more jobs waiting than any plausible internal bound
+        elif b % 16 == 13:
+            life = "recycle"
+            n = max(n, 4)
+            fail_at = [x for x in fail_at if x < n]
+        if b % 16 == 7 and n >= 3:
+            fail_at = sorted(set(range(n)) - {rng.randrange(n)})        # (almost) every job fails: several failure reports in flight at once
+        plist.append({"seed": core.seed() * 9973 + b, "njobs": n, "nworkers": rng.randint(1, 2) if life == "recycle" else rng.randint(1, 4),
+                      "switch": 10 ** rng.uniform(-6, -2.3), "fail_at": fail_at, "timeout": 90.0, "life": life,
                       "perturb": "focus-enqueue" if slow_enqueue else [0, 0.05, 0.25, "focus"][b % 4]})
     hist = []
     for chunk in pmap(batch_chunk, plist, chunk=3, tasks_per_child=4):
@@ -323,7 +367,7 @@ def check(tier: str) -> int:
     for h in hist:
         msg = value_check(h)
         if msg:
-            kind = "failing-job-future" if ("pending after" in msg or "raises" in msg) and "failing" in msg or "pipeline raises" in msg else "wrong-value"
+            kind = "enqueue-stuck" if "enqueue() had not returned" in msg else "pending" if "still pending" in msg and "(ok job)" in msg else "failing-job-future" if ("pending after" in msg or "raises" in msg) and "failing" in msg or "pipeline raises" in msg else "wrong-value"
             run.violation(f"future:{kind}", f"batch {h['params']}: {msg}", {"params": h["params"]})
     for h in rejected[:6]:
         if value_check(h):
